@@ -130,9 +130,18 @@ CHECKS = [
         "stream/channel model assumed (per-stream in-order delivery of first + k*step; interleavings irrelevant under it); two input "
         "streams (structural bound); FormulaEngine._run not under contract",
         "contract-based deductive verification with class invariant over scripted streams (z3)", "DESIGN.md 3 (C06)"),
+    chk("C09", "other",
+        "Two parts, reported separately in the evidence. Proved deductively: the slot arithmetic (normalize_timestamp = nearest grid "
+        "slot with ties to even, wrap = slot mod capacity). Bounded only (labelled, not counted as proved): the real OrderedRingBuffer "
+        "against an abstract sliding time-indexed map over all update histories of a small scope plus seeded random longer ones, "
+        "including datetime/index window queries. The bounded part found two genuine window() defects, repaired by one fix: commit.",
+        "gap-list maintenance and window assembly are outside the verifier's subset (in-place mutation of aliased objects, numpy): only "
+        "the stated bounded scope is covered for them; MovingWindow wrappers not covered; even-microsecond periods for the proof",
+        "contract-based deductive verification of the index arithmetic + bounded native exploration of the real class (stand-in)",
+        "DESIGN.md 3 (C09)"),
 ]
 
 _PENDING = "check under construction in this session (contracts not yet written); will be claimed once its obligations discharge"
 NOT_APPLICABLE = [
     {"property_id": "C12", "reason": "formula generators are graph algorithms over networkx.DiGraph (recursive dfs, successor-set classification); no contract within reach of the VC generator expresses 'the generated formula balances for every valid graph' (DESIGN.md 4)"},
-] + [{"property_id": f"C{n:02d}", "reason": _PENDING} for n in (1, 2, 5, 9, 20)]
+] + [{"property_id": f"C{n:02d}", "reason": _PENDING} for n in (1, 2, 5, 20)]
